@@ -382,6 +382,9 @@ def check(ctx: Ctx):
     io.check_timecourse_time(ctx)
     io.check_pair_iteration(ctx)
     io.check_file_modes(ctx)
+    from ..rules import support as _sup14
+
+    _sup14.check_text_file_modes(ctx, ("droplets.trackers.LengthScaleTracker.finalize",))
     # droplets located without refinement carry an undetermined (NaN) width: the file the tracker writes must read back
     io.check_nan_width(ctx)
     # the offline analysis pairs frame i with storage.times[i]: with several processes the results must come back in frame order
